@@ -22,6 +22,9 @@ from pvc.sym import Mat, PyRaise, SInt, SMat, SObj, SReal, SSeq, SV, Unsupported
 from pvc.symtheory import Env, Expr, ExprV, Str, StrV, Sym, SymV, ev_f, lookup_f, name_f
 
 simp_f = z3.Function("simplify", Expr, Expr)
+# an expression without ComplexInfinity (zoo): the premise under which D-lam / D-ccode (printing) are assumed.  sympy's simplify() does NOT
+# preserve it (defect D15: sign(x) next to a pole at x becomes a Piecewise whose x == 0 branch is zoo).
+finite_f = z3.Function("no_complex_infinity", Expr, z3.BoolSort())
 
 
 class LamV(SV):
@@ -116,6 +119,10 @@ class BlockWorld:
         self.temps.pvc_type = "list"
         P.ghost["env"] = self.E
         P.ghost["env_star"] = self.Es
+        # accepted definitions contain no ComplexInfinity, and cse() (which only regroups sub-expressions) introduces none
+        fi = z3.Int(P.names.fresh("fi"))
+        for fn, bound in ((self.expr_f, self.q), (self.red_f, self.q), (self.rhs_f, self.p)):
+            P.facts.append(z3.ForAll([fi], z3.Implies(z3.And(fi >= 0, fi < bound), finite_f(fn(fi))), patterns=[fn(fi)]))
 
     def dcse_facts(self, P):
         """D-cse in environment form + distinct-name facts (instantiable, patterns on the function symbols)."""
@@ -330,9 +337,77 @@ class Compile(Contract):
                 P.oblige(f"{pre}.body_scope.parameters", z3.Implies(z3.And(in_j, t >= 0, t < wantp.len_z()), ent.params.at(t).z == wantp.at(t).z))
 
 
+class GuardedSimplify(Contract):
+    """python._simplify(expr) / cpp._simplify(expr)
+    requires expr has no ComplexInfinity.
+    ensures  the result has the value of expr under every environment (D-simp) and has no ComplexInfinity (so it can be printed)."""
+
+    def __init__(self, module="formak.python"):
+        self.key = f"{module}:_simplify"
+        self.prefix = ("C08.py" if module.endswith("python") else "C08.cxxgen") + "._simplify"
+
+    def setup(self, I):
+        P = I.path
+        P.ghost["site"] = self.prefix
+        install_sympy_models(I, None)
+        e = z3.Const("given_expr", Expr)
+        P.facts.append(finite_f(e))
+        x, en = z3.Const("sx", Expr), z3.Const("sen", Env)
+        P.facts.append(z3.ForAll([x, en], ev_f(simp_f(x), en) == ev_f(x, en), patterns=[ev_f(simp_f(x), en)]))  # D-simp
+        return Call([ExprV(e)], {}, e=e)
+
+    def post(self, I, call, outcome):
+        P, pre = I.path, self.prefix
+        if outcome[0] == "raise":
+            P.oblige(f"{pre}.no_exception", z3.BoolVal(False), note=f"raises {outcome[1]}")
+            return
+        r = outcome[1]
+        ok = isinstance(r, ExprV)
+        P.oblige(f"{pre}.returns_expression", z3.BoolVal(ok))
+        if ok:
+            en = z3.Const("any_env", Env)
+            P.oblige(f"{pre}.value_preserving", ev_f(r.z, en) == ev_f(call.e, en), theory="euf")
+            P.oblige(f"{pre}.result_has_no_complex_infinity", finite_f(r.z), theory="euf")
+
+    def apply(self, I, args, kwargs):
+        e = args[0]
+        if not isinstance(e, ExprV):
+            raise Unsupported("_simplify of a non-expression")
+        I.path.oblige(f"{I.path.ghost.get('site', '_simplify')}.pre._simplify.expression_has_no_complex_infinity", finite_f(e.z), theory="euf")
+        r = simp_f(e.z)  # "the library's simplification step": value-preserving (D-simp axiom on simp_f) and printable
+        I.path.facts.append(finite_f(r))
+        return ExprV(r)
+
+
 def install_sympy_models(I, W):
     """D-cse / D-simp / D-lam structural models for the verification of _compile."""
     M = I.models
+    from pvc.models import TypeV as _TypeV
+
+    M.froms[("sympy", "zoo")] = _TypeV("zoo", lambda I2, v: False)
+
+    def expr_getattr(I2, obj, name):
+        if isinstance(obj, ExprV) and name == "has":
+
+            def m_has(I3, a, kw):
+                if len(a) == 1 and isinstance(a[0], _TypeV) and a[0].name == "zoo":
+                    from pvc.sym import SBool
+
+                    return SBool(z3.Not(finite_f(obj.z)))
+                raise Unsupported("Expr.has of something else than zoo")
+
+            return Builtin("Expr.has", m_has)
+        return NotImplemented
+
+    prev = getattr(M, "opaque_getattr_hook", None)
+
+    def hook(I2, obj, name):
+        r = expr_getattr(I2, obj, name)
+        if r is NotImplemented and prev is not None:
+            return prev(I2, obj, name)
+        return r
+
+    M.opaque_getattr_hook = hook
 
     def m_cse(I2, args, kw):
         body = args[0]
@@ -375,6 +450,8 @@ def install_sympy_models(I, W):
         ps = as_seq2(params) if not isinstance(params, SSeq) else params
         if not isinstance(e, ExprV):
             raise Unsupported("lambdify of a non-expression")
+        # premise of D-lam: the expression can be printed (no ComplexInfinity)
+        I2.path.oblige(f"{I2.path.ghost.get('site', 'lambdify')}.compiled_expression_has_no_complex_infinity", finite_f(e.z), theory="euf")
         return LamV(ps, e.z)
 
     M.froms[("sympy", "cse")] = Builtin("sympy.cse", m_cse)
@@ -536,6 +613,20 @@ class ModelInit(Contract):
             ex = blk.fields["_exprs"]
             P.oblige(f"{pre}.impl_statements_by_state_name", z3.And(ex.len_z() == n, z3.Implies(z3.And(i >= 0, i < n), ex.at(i).z == ui.sm.get(srt_f(ui.S.term, i)))))
             P.oblige(f"{pre}.impl_arglist", z3.BoolVal(blk.fields.get("_arglist") is al))
+
+
+def compile_callees(module="formak.python"):
+    """callee contracts for BasicBlock._compile / cpp.BasicBlock.compile"""
+    return {f"{module}:_simplify": GuardedSimplify(module)}
+
+
+def has_guarded_simplify(repo, module="formak.python"):
+    import ast as _ast
+    import os as _os
+
+    path = _os.path.join(repo, "py", *module.split(".")) + ".py"
+    tree = _ast.parse(open(path).read())
+    return any(isinstance(nd, _ast.FunctionDef) and nd.name == "_simplify" for nd in tree.body)
 
 
 def model_init_callees():
